@@ -529,6 +529,17 @@ func jobC10(c *rt.Ctx) {
 		var P, N Ge25519
 		ok1 := UnpackVartime(&P, in)
 		ok2 := UnpackNegativeVartime(&N, in)
+		// ... and from a LONGER buffer whose first 32 bytes are the string (VerifyBatch hands the whole
+		// 64-byte signature to the decoder): only the first 32 bytes count, for both decoders
+		for _, tailByte := range []byte{0x00, 0x80, 0xff} {
+			long := append(append([]byte{}, b...), bytes.Repeat([]byte{tailByte}, 32)...)
+			var Pl, Nl Ge25519
+			l1, l2 := UnpackVartime(&Pl, long), UnpackNegativeVartime(&Nl, long)
+			if l1 != ok1 || l2 != ok2 || (ok1 && (Pl != P || Nl != N)) {
+				c.Violation("C10 decode long-buffer", fmt.Sprintf("decoding %x from a 64-byte buffer (tail bytes %#x) differs from decoding the 32-byte string", b, tailByte), map[string]interface{}{"string": ref.Hex(b), "tail": tailByte})
+				break
+			}
+		}
 		// ... and into destinations that already hold a point (VerifyBatch decodes every chunk into the
 		// same heap slots): same verdict, same point
 		Pd, Nd := dirty(), dirty()
